@@ -8,8 +8,9 @@
 (*   accepted  <=>  member of the grammar and well formed in the sense of   *)
 (*                  parse_query / parse_schema (unique names, roots)        *)
 (*   tree      =    the tree built by the push-down machine                 *)
-(* modulo the property's documented deviations (selection sets deeper than  *)
-(* 64 may be rejected; \u escapes must be scalar values).                   *)
+(* with the property's documented deviations as part of the contract:       *)
+(* selection sets nested more than 64 levels must be rejected (at most 64   *)
+(* must be accepted); \u escapes must be scalar values.                     *)
 (* An observation that only today's grammar (AllDevs) explains is           *)
 (* "known:<deviations exercised>"; anything else is a violation.            *)
 (*                                                                         *)
@@ -60,7 +61,7 @@ Agrees(c, x) ==
   LET wf == x.ok /\ (IF c.mode = "sdl" THEN SdlWellFormed(x.ast) ELSE ExecWellFormed(x.ast)) IN   \* = WellFormed(c, x)
     IF c.acc \notin {"yes", "no"} THEN FALSE                                  \* a panic is never allowed
     ELSE IF ~wf THEN c.acc = "no"
-    ELSE IF MaxSelDepth(x.ast) > 64 THEN c.acc = "no" \/ TreeEq(c.mode, x.ast, ObsDefs(c))   \* documented: may be rejected
+    ELSE IF SelNesting(x.ast) > NestingLimit THEN c.acc = "no"                     \* documented deviation: must be rejected
     ELSE c.acc = "yes" /\ TreeEq(c.mode, x.ast, ObsDefs(c))
 
 RECURSIVE JoinDevs(_, _, _)
